@@ -104,7 +104,13 @@ class MetaMC(type):
         cls.__args__ = get_args(handler)
 
     def codegen(cls):
-        return cls._handler.codegen()
+        if hasattr(cls._handler, "codegen"):
+            return cls._handler.codegen()
+        # A class-level type (Exactly[A], HasMethod[...]) next to value-dependent
+        # members of a union / intersection: an instance check
+        from .dependent import CodeGen
+
+        return CodeGen("isinstance({arg}, {this})", this=cls)
 
     def __type_order__(cls, other):
         return cls._handler.__type_order__(other)
